@@ -36,7 +36,7 @@ EXPECTED_PROBES = ['unresponsive_seen', 'close_timeout_fired', 'ping_rate_zero',
                    'close_called_again_while_closing',
                    'read_filled_buffer_exactly',
                    'server_closes_first_then_keeps_tcp_open',
-                   'unsolicited_pongs']
+                   'unsolicited_pongs', 'server_pings']
 
 EPS = 2e-5      # float rounding at a 1.7e9 epoch (2^-22 s) with margin
 
@@ -84,6 +84,11 @@ def make_case(family, i, rng, tier):
     elif pm == 'first_k':
         pong = {'delay': 1000, 'limit': rng.choice([1, 2, 4])}
     case['pong'] = pong
+    if t and rng.random() < 0.25:
+        # the server keeps sending Pings of its own (answered by the
+        # client): they are no Pongs and do not refresh the ping timeout
+        case['server_pings'] = {'every': t * rng.choice([0.3, 0.6]),
+                                'until': round(horizon, 3)}
     if t and rng.random() < 0.25:
         # heartbeat Pongs the server sends on its own (own payload, not an
         # echo of any Ping): they count as signs of life like any Pong
@@ -149,6 +154,13 @@ def build(case):
         timeline = [x for x in timeline if len(x[1]) == 1 or
                     not (tr_['at'] <= x[0] <= tr_['at'] + len(blob) *
                          tr_['every'])]
+    sp = case.get('server_pings')
+    if sp and not tr_:
+        k = 1
+        while k * sp['every'] <= sp['until']:
+            timeline.append((round(k * sp['every'], 6),
+                             peer.enc_frame(9, b'srv-%d' % k)))
+            k += 1
     hb = case.get('heartbeat')
     if hb and not tr_:
         k = 1
@@ -262,6 +274,8 @@ def execute(case):
         res.stats['probe:jitter'] += 1
     if t and not r:
         res.stats['probe:timeout_without_auto_ping'] += 1
+    if case.get('server_pings') and any(e.name == 'ping' for e in tr.events):
+        res.stats['probe:server_pings'] += 1
     if case.get('heartbeat') and any(e.name == 'pong' for e in tr.events):
         res.stats['probe:unsolicited_pongs'] += 1
     if case.get('full_read_at') is not None and 'binary' in names:
